@@ -46,7 +46,7 @@ VARS = ['x', 'y', 'z']
 
 
 class Gen(object):
-  def __init__(self, rnd, avoid=('D1', 'D2', 'D6'), max_depth=3, features=None):
+  def __init__(self, rnd, avoid=('D1', 'D2'), max_depth=3, features=None):
     self.rnd = rnd
     self.avoid = set(avoid)
     self.max_depth = max_depth
@@ -273,7 +273,7 @@ class Gen(object):
     return src
 
 
-def random_program(seed, size=4, avoid=('D1', 'D2', 'D6'), features=None, max_depth=3):
+def random_program(seed, size=4, avoid=('D1', 'D2'), features=None, max_depth=3):
   rnd = random.Random(seed)
   return Gen(rnd, avoid, max_depth, features).program(size)
 
@@ -323,7 +323,7 @@ def skeletons(max_k):
 class Filler(object):
   """Deterministic filling of a skeleton: every block is  leaf; node; leaf; node; ... ; leaf."""
 
-  def __init__(self, avoid=('D1', 'D2', 'D6')):
+  def __init__(self, avoid=('D1', 'D2')):
     self.n = 0
     self.fuel = 0
     self.avoid = set(avoid)
@@ -382,7 +382,7 @@ class Filler(object):
     raise AssertionError(k)
 
 
-def skeleton_program(tree, avoid=('D1', 'D2', 'D6')):
+def skeleton_program(tree, avoid=('D1', 'D2')):
   f = Filler(avoid)
   body = f.fill(tree, '  ')
   return HEADER + '\ndef f(t, c, a):\n  x = a[0]\n  y = 1\n  z = 0\n' + '\n'.join(body) + '\n  return (x, y, z)\n'
